@@ -250,8 +250,12 @@ package lib
 //@   atcall dynamic#1 before: snap announcedNew := true
 // announced as new only when the TRACKED registration was not valid before this call (once per lifetime)
 //@   ensures @C09: defined(announcedNew) ==> old(trackedReg(r, d)) == nil || !old(trackedReg(r, d).Valid)
-// (the detector callbacks are func-valued fields; their frame is assumed: program memory, no lock operation)
-//@   dynamiccalls assigns memory
+// (the detector callbacks are func-valued fields; their assumed frame: they publish a message and log - they write
+// nothing of the program's memory and perform no lock operation)
+//@   dynamiccalls assigns nothing
+// C08 "never kept past their lifetime": the lifetime runs from the moment a registration was first tracked - validating
+// it (or anything else register does) never restarts the clock of any expiry record
+//@   ensures @C08: forall k string :: old(k in r.decoysTimeouts && r.decoysTimeouts[k] != nil) ==> k in r.decoysTimeouts && r.decoysTimeouts[k] == old(r.decoysTimeouts[k]) && tnanos(r.decoysTimeouts[k].registrationTime) == old(tnanos(r.decoysTimeouts[k].registrationTime))
 //@   ensures @C09: !held(&r.m) && rheld(&r.m) == 0
 
 //@ func (r *RegisteredDecoys) markActive(d *DecoyRegistration)
@@ -260,7 +264,9 @@ package lib
 //@   requires @SAFETY: forall k string :: k in r.decoysTimeouts ==> r.decoysTimeouts[k] != nil
 //@   atcall dynamic#1 before: assert @C09 @C08: held(&r.m) && regTimeout.status == regStatusUsed && arg0 == d
 //@   atcall dynamic#1 before: snap markedUsed := true
-//@   dynamiccalls assigns memory
+//@   dynamiccalls assigns nothing
+// C08: a connection changes a record's state to used, never its clock
+//@   ensures @C08: forall k string :: old(k in r.decoysTimeouts && r.decoysTimeouts[k] != nil) ==> k in r.decoysTimeouts && r.decoysTimeouts[k] == old(r.decoysTimeouts[k]) && tnanos(r.decoysTimeouts[k].registrationTime) == old(tnanos(r.decoysTimeouts[k].registrationTime))
 // C08: a connection on a tracked registration always marks its record as used (it then lives 6 hours), whatever its age
 //@   ensures @C08: old(concat(idStringOf(d), ipString(d.PhantomIp)) in r.decoysTimeouts) ==> defined(markedUsed)
 //@   checks safety
